@@ -112,18 +112,19 @@ theorem step_decr (st : Core) (f : Frame) (fs : List Frame) :
       omega
     · simp [frameW]
   | run c ow late =>
-    have hcf : framesW (closureFrames c) = if c.drops.isSome then 1 else 0 := by
+    have hcf : framesW (closureFrames st.cur c) ≤ if c.drops.isSome then 1 else 0 := by
       unfold closureFrames
-      cases c.drops <;> simp [frameW]
+      cases c.drops with
+      | none => simp [frameW]
+      | some ow => simp only []; split <;> simp [frameW]
     by_cases hn : c.nested = true
     · have h1 := ownersW_regCleanup (logEv st (Ev.c c.tag c.cid ow late)) (c.tag + 100)
       have h2 := ownersW_newStored (regCleanup (logEv st (Ev.c c.tag c.cid ow late)) (c.tag + 100) false none) c.tag
-      simp only [stepFrame, hn, if_true, framesW_append, framesW_cons, frameW, cleanupW, hcf]
+      simp only [stepFrame, hn, if_true, framesW_append, framesW_cons, frameW, cleanupW]
       have e1 : (logEv st (Ev.c c.tag c.cid ow late)).owners = st.owners := rfl
       rw [e1] at h1
       omega
-    · simp only [stepFrame, hn, if_false, Bool.false_eq_true, framesW_append, framesW_cons, frameW, cleanupW,
-        hcf]
+    · simp only [stepFrame, hn, if_false, Bool.false_eq_true, framesW_append, framesW_cons, frameW, cleanupW]
       have e1 : (logEv st (Ev.c c.tag c.cid ow late)).owners = st.owners := rfl
       rw [e1]
       omega
